@@ -131,7 +131,7 @@ class Check:
     def open_findings(self):
         return [f for f in self.known.get("findings", []) if f.get("property") == self.pid and f.get("status") == "open"]
 
-    def confirm(self, candidates, make_replay, classify, max_confirm=40, per_finding=3):
+    def confirm(self, candidates, make_replay, classify, max_confirm=40, per_finding=3, goods=()):
         """candidates: list of dicts from Acc.  make_replay(c) -> (kind, body, key) ; classify(c) -> finding id | None.
         Candidates matching the characteristic predicate of an open listed finding are replayed only `per_finding`
         times per finding; every other distinct candidate is replayed (up to max_confirm)."""
@@ -147,6 +147,23 @@ class Check:
             except SyntaxError as e:
                 self.harness_error("replay generator of %s writes a script that does not compile: %s (line %s: %r)" % (
                     getattr(make_replay, "__module__", "?"), e.msg, e.lineno, (e.text or "").strip()[:120]))
+        # second self-test: cases the check found correct, written as candidates, must come back HOLDS from their replay
+        # (a replay that says VIOLATED for everything would "confirm" counterexamples that do not reproduce)
+        done_kinds = set()
+        for g in goods:
+            if g["kind"] in done_kinds or len(done_kinds) >= 4:
+                continue
+            done_kinds.add(g["kind"])
+            try:
+                kind, body, key = make_replay(g)
+            except Exception as e:
+                self.harness_error("replay generator failed on a passing case of kind %s: %s: %s" % (g["kind"], type(e).__name__, e))
+                continue
+            path = self.write_replay("sanity-" + kind, body, ("sanity", key))
+            rc, out = self.run_script(path)
+            self.sanity_replays = getattr(self, "sanity_replays", 0) + 1
+            if rc != 0:
+                self.harness_error("replay script %s of a case the check found correct exited %s: %s" % (path, rc, out[-400:]))
         seen = {}
         openids = {f["id"] for f in self.open_findings()}
         per = {}
